@@ -786,8 +786,9 @@ class NDNApp:
             self.logger.info('Shutting down')
             ret = False
         finally:
+            # (also when run() ends with an exception of its own: nothing may stay pending on a dead connection)
             self.face.shutdown()
-        self._clean_up()
+            self._clean_up()
         await task
         return ret
 
